@@ -375,6 +375,12 @@ def reScan : Bytes → Nat → Int → Option (Bytes × Bytes)
       | some (x, rest) => some (c :: x, rest)
       | none => none
 
+/-- `q2 == "" || unicode.IsSpace(rune(q2[0])) || isStartOp(rune(q2[0]))` -/
+def followOK (cx : Ctx) (q2 : Bytes) : Bool :=
+  match q2 with
+  | [] => true
+  | c :: _ => isSpaceRune cx c.toNat || isStartOpB c
+
 /-- `regexp` with `t.q = q`, `q[0] == '/'` -/
 def regexpTok (cx : Ctx) (q : Bytes) (e : ErrSt) : TokR :=
   match reScan (q.drop 1) 0 0 with
@@ -383,10 +389,7 @@ def regexpTok (cx : Ctx) (q : Bytes) (e : ErrSt) : TokR :=
     if !cx.compileOK expr then tokError cx q .reCompile e
     else
       let q2 := rest.drop 1
-      let okFollow := match q2 with
-        | [] => true
-        | c :: _ => isSpaceRune cx c.toNat || isStartOpB c
-      if okFollow then mkTok cx q kR expr q2 e
+      if followOK cx q2 then mkTok cx q kR expr q2 e
       else tokError cx q2 .reFollow e
 
 /-- `next(allowRegexp)`; fuel bounds the white-space skipping loop (`q.length + 1` suffices). -/
